@@ -297,6 +297,8 @@ type Peer struct {
 	CC      shim.Chaincode
 	ACL     *ACL
 	Clock   int64 // seconds, harness-controlled
+	// StubHook is given to every stub created from now on (see Stub.Hook)
+	StubHook func(op string)
 	// Transient is the transient map every proposal carries (trace context of the client), if any.
 	Transient map[string][]byte
 }
@@ -316,7 +318,7 @@ func (p *Peer) newStub(creator []byte, txid string, args [][]byte) *Stub {
 		L: p.L, TxID: txid, Channel: p.Channel, Args: args, Creator: creator,
 		SP:      BuildSignedProposal(p.CCName, args),
 		TS:      &timestamp.Timestamp{Seconds: p.Clock},
-		Invoker: p.ACL.Invoker(), Transient: p.Transient,
+		Invoker: p.ACL.Invoker(), Transient: p.Transient, Hook: p.StubHook,
 	}
 }
 
